@@ -72,6 +72,7 @@ class Engine:
         self.stats = {"feas_checks": 0, "paths": 0}
         self.dry = 0                        # >0 while computing loop write-sets: no obligations
         self.problems = []                  # (obligation name, reason) -> UNDECIDED
+        self.contract_variants = {}
         self.depth_limit = 12
 
     # ------------------------------------------------------------------ classes
@@ -874,8 +875,41 @@ class Engine:
             return self.ev(defaults[p], s, fr_callee, got)
         return go(0, st)
 
+    def kind_compatible(self, have, want):
+        if have == want or want == "any" or have == "any":
+            return True
+        if want.startswith("optref:"):
+            return have == "none" or self.kind_compatible(have, want[7:])
+        if have.startswith("optref:"):
+            return self.kind_compatible(have[7:], want)
+        if have.startswith("ref:") and want.startswith("ref:"):
+            return self.is_subclass(have[4:], want[4:]) or self.is_subclass(want[4:], have[4:])
+        if have.startswith("list:") and want.startswith("list:"):
+            return elem_heapkey(have[5:]) == elem_heapkey(want[5:])
+        if have == "bool" and want == "int":
+            return True
+        return False
+
+    def contract_for_call(self, fi, args, kwargs):
+        cands = self.contract_variants.get(fi.qualname)
+        if cands is None:
+            cands = self.contract_variants[fi.qualname] = [c for c in self.contracts.values() if c.base == fi.qualname]
+        if len(cands) <= 1:
+            return cands[0] if cands else None
+        params = fi.params
+        for c in cands:
+            ok = True
+            for p, v in list(zip(params, args)) + [(p, kwargs[p]) for p in kwargs]:
+                want = c.sorts.get(p)
+                if want and not self.kind_compatible(v.kind, want):
+                    ok = False
+                    break
+            if ok:
+                return c
+        raise EngineError(f"no contract variant of {fi.qualname} fits the argument kinds {[a.kind for a in args]}")
+
     def call_repo(self, fi, args, kwargs, st, fr, k):
-        c = self.contracts.get(fi.qualname)
+        c = self.contract_for_call(fi, args, kwargs)
         if c is not None and not c.inline:
             return self.apply_contract(fi, c, args, kwargs, st, fr, k)
         return self.call_inline(fi, args, kwargs, st, fr, k)
@@ -985,7 +1019,7 @@ class Engine:
         if n.value is None:
             return [(st, "return", SNone())]
         if isinstance(n.value, ast.List) and fr.finfo is not None:
-            c = self.contracts.get(fr.finfo.qualname)
+            c = getattr(fr, "contract", None) or self.contracts.get(fr.finfo.qualname)
             rk = c.sorts.get("result") if c else None
             if rk and rk.startswith("list:"):
                 n.value._elemkind = rk[5:]
@@ -1028,10 +1062,17 @@ class Engine:
     def hint_literal(self, n, fr):
         hints = getattr(fr, "local_kinds", None)
         if hints is None:
-            c = self.contracts.get(fr.finfo.qualname) if fr.finfo else None
+            c = (getattr(fr, "contract", None) or self.contracts.get(fr.finfo.qualname)) if fr.finfo else None
             hints = fr.local_kinds = (c.local_kinds if c else {})
-        if len(n.targets) == 1 and isinstance(n.targets[0], ast.Name) and n.targets[0].id in hints:
-            kind = hints[n.targets[0].id]
+        kind = None
+        t0 = n.targets[0] if len(n.targets) == 1 else None
+        if isinstance(t0, ast.Name) and t0.id in hints:
+            kind = hints[t0.id]
+        elif isinstance(t0, ast.Attribute) and isinstance(t0.value, ast.Name) and t0.value.id == "self" and fr.cls is not None:
+            own = self.attr_owner(fr.cls.name, t0.attr)       # empty literals take the kind of the attribute they initialise
+            if own is not None:
+                kind = own[1][7:] if own[1].startswith("optref:") else own[1]
+        if kind is not None:
             v = n.value
             if isinstance(v, ast.List):
                 v._elemkind = kind[5:] if kind.startswith("list:") else "any"
